@@ -14,7 +14,9 @@ DRIVER = "Driver/C28.lean"
 OBLIGATIONS = ["NiftyVerif.C28." + t for t in (
     "wsum_map_mul_div", "amp_normalised_power", "amp_normalised_amplitude", "spatialVar_normalised",
     "expected_spatial_variance", "zero_mode_only_mean", "product_mode_sum", "product_total_fluct", "single_space_fluct",
-    "matern_reported_partial")]
+    "matern_reported_partial", "hartley_columns", "hartley_variance_both_conventions", "binned_mode_sum",
+    "matern_realised_variance", "prodSel_false", "total2_general", "product_slice_sum", "slice_modes_general",
+    "total_modes_general", "total2_ofFn")]
 RULE = ("generated configurations: 1-D and 2-D regular grids of several shapes and distances, one or two sub-spaces, "
         "non-parametric (with/without flexibility and asperity) and Matern amplitudes, JAX kinds amplitude/power and "
         "renormalisation, both Hartley conventions, random hyper-parameter priors and latent inputs; (1) classic vs JAX "
@@ -77,10 +79,26 @@ def gen_space(rng, kind, allow2d=True):
     return sp
 
 
-def gen_case(rng):
+# the amplitude code paths: (model, JAX kind, JAX renormalisation); every run covers all of them (round-robin), the rest is random
+STRATA = [("nonparam", "power", False), ("nonparam", "amplitude", True), ("matern", "power", True), ("matern", "amplitude", True),
+          ("matern", "power", False), ("matern", "amplitude", False), ("nonparam", "power", True), ("nonparam", "amplitude", False)]
+
+
+def gen_case(rng, stratum=None):
+    if stratum is not None:
+        c = gen_case(rng)
+        while c["kind"] != stratum[0]:
+            c = gen_case(rng)
+        c["re_kind"], c["renorm"] = stratum[1], stratum[2]
+        return c
     kind = "nonparam" if rng.random() < 0.65 else "matern"
-    nsp = 1 if rng.random() < 0.55 else 2
-    spaces = [gen_space(rng, kind, allow2d=(nsp == 1 or i == 0)) for i in range(nsp)]
+    u = rng.random()
+    nsp = 1 if u < 0.5 else (2 if u < 0.85 else 3)     # three sub-spaces: the product formulas beyond the documented pair
+    spaces = [gen_space(rng, kind, allow2d=(nsp == 1 or (nsp == 2 and i == 0))) for i in range(nsp)]
+    if nsp == 3:
+        for sp in spaces:
+            if sp["shape"][0] > 5:
+                sp["shape"] = [rng.choice([4, 5])]
     return dict(kind=kind, spaces=spaces, offset_mean=r2(rng, -1.0, 1.0), offset_std=[r2(rng, 0.1, 2.0), r2(rng, 0.05, 0.5)],
                 hartley=rng.choice(["non_canonical_hartley", "canonical_hartley"]),
                 re_kind=rng.choice(["power", "amplitude"]), renorm=rng.random() < 0.5, seed=rng.randrange(10 ** 6))
@@ -258,28 +276,49 @@ def analyse(case):
         re_kind, renorm = case["re_kind"], bool(case["renorm"])
         jcfm, jcf = build_re(case, re_kind, renorm)
         pos2 = latent(case, jcf)
-        J = jac_re(jcf, pos2)
+        # one compiled call: Jacobian with respect to the excitations and every internal quantity that is compared
+        jax = E["jax"]
+        nonparam = case["kind"] == "nonparam"
+
+        def everything(p):
+            def f(xi):
+                q = dict(p)
+                q["xi"] = xi
+                return jcf(q).reshape(-1)
+            per = []
+            for amp in jcfm._fluctuations:
+                d = dict(amp=amp(p))
+                if nonparam:
+                    d["flu"] = amp.fluctuations(p)
+                    d["slope"] = amp._loglogavgslope(p)
+                    if amp._deviations is not None:
+                        d["dev"] = amp._deviations(p)
+                else:
+                    d["flu"] = amp.scale(p)
+                per.append(d)
+            return jax.jacfwd(f)(p["xi"]), jcfm.azm(p), per
+        Jx, azm, per = jax.jit(everything)(pos2)
+        J = np.array(Jx)
+        J = J.reshape(J.shape[0], -1)
         out["re"] = dict(realised=realised(case, J), kind=re_kind, renorm=renorm)
-        azm2 = float(jcall(jcfm.azm, pos2)) ** 2
+        azm2 = float(azm) ** 2
         out["re"]["azm2"] = azm2
         sps = []
-        for i, (amp, grid) in enumerate(zip(jcfm._fluctuations, jcfm._target_grids)):
-            a = np.array(jcall(amp, pos2), dtype=float).reshape(-1)
+        for i, (d, grid) in enumerate(zip(per, jcfm._target_grids)):
+            a = np.array(d["amp"], dtype=float).reshape(-1)
             hg = grid.harmonic_grid
             mult = np.array(hg.mode_multiplicity, dtype=float)
             V = float(grid.total_volume)
             spec = None
-            if case["kind"] == "nonparam":
-                flu2 = float(jcall(amp.fluctuations, pos2)) ** 2
+            flu2 = float(d["flu"]) ** 2
+            if nonparam:
                 rel = np.array(hg.relative_log_mode_lengths)
-                ln = np.array(jcall(amp._loglogavgslope, pos2)) * rel
-                if amp._deviations is not None:
-                    tw = np.array(jcall(amp._deviations, pos2))
+                ln = np.array(d["slope"]) * rel
+                if "dev" in d:
+                    tw = np.array(d["dev"])
                     tw = np.concatenate((np.zeros(1), tw[:, 0]))
                     ln = ln + (tw - tw[-1] * rel / rel[-1])
                 spec = [float(x) for x in np.exp(ln)[1:]]
-            else:
-                flu2 = float(jcall(amp.scale, pos2)) ** 2
             sps.append(dict(V=V, flu2=flu2, mult=[float(x) for x in mult[1:]], amp2=[float(x) ** 2 for x in a[1:]], zero=float(a[0]),
                             spec=spec, kind=re_kind))
         out["re"]["spaces"] = sps
@@ -433,10 +472,41 @@ def load_corpus():
     return out
 
 
+def hartley_kernel_check(ctx):
+    """the conclusions of `hartley_columns` (= hypotheses of `expected_spatial_variance`) on the REAL kernels, both conventions:
+    zero-mode column constant one, every other column sums to zero, every column has squared norm N; classic HartleyOperator too"""
+    E = env()
+    jft, ift = E["jft"], E["ift"]
+    from nifty.re.correlated_field import hartley
+    shapes = [(2,), (5,), (8,), (3, 4), (4, 4), (2, 3, 2)] if ctx.quick else [(2,), (3,), (5,), (8,), (9,), (3, 4), (4, 4), (5, 2), (2, 3, 2)]
+    for shape in shapes:
+        n = int(np.prod(shape))
+        kernels = {}
+        for conv in ("non_canonical_hartley", "canonical_hartley"):
+            jft.config.update("hartley_convention", conv)
+            kernels["re:" + conv] = np.stack([np.array(hartley(np.eye(n)[k].reshape(shape))).reshape(-1) for k in range(n)], axis=1)
+        jft.config.update("hartley_convention", "non_canonical_hartley")
+        sp = ift.RGSpace(shape)
+        ht = ift.HartleyOperator(sp.get_default_codomain(), sp)
+        kernels["cl"] = np.stack([ht(ift.makeField(ht.domain, np.eye(n)[k].reshape(shape))).asnumpy().reshape(-1)
+                                  for k in range(n)], axis=1) * sp.total_volume
+        for name, H in kernels.items():
+            impl = dict(zero_column_is_one=bool(np.allclose(H[:, 0], 1., atol=1e-12)),
+                        other_columns_sum_to_zero=bool(np.allclose(H[:, 1:].sum(axis=0), 0., atol=1e-10)),
+                        column_norm2_is_N=bool(np.allclose((H * H).sum(axis=0), n, rtol=1e-12)))
+            ctx.compare(dict(what="hartley kernel", shape=list(shape), kernel=name), impl,
+                        dict(zero_column_is_one=True, other_columns_sum_to_zero=True, column_norm2_is_N=True),
+                        note="hypotheses of expected_spatial_variance / conclusions of hartley_columns on the real transform",
+                        nontrivial=n > 2)
+        ctx.stat("hartley-kernels-checked")
+
+
 def run(ctx):
     cases = load_corpus()
-    for _ in range(ctx.n(12, 160)):
-        cases.append(gen_case(ctx.rng))
+    hartley_kernel_check(ctx)
+    off = ctx.rng.randrange(len(STRATA))
+    for i in range(ctx.n(9, 160)):
+        cases.append(gen_case(ctx.rng, STRATA[(i + off) % len(STRATA)] if i % 4 != 3 else None))
     reqs, metas = [], []
     for c in cases:
         ctx.stat("model:" + c["kind"])
